@@ -63,6 +63,7 @@ type FileSpec struct {
 	Path string `json:"path"`
 	Dir  bool   `json:"dir,omitempty"`
 	Data Bytes  `json:"data,omitempty"`
+	Link string `json:"link,omitempty"` // symbolic link target
 }
 
 // Fault kinds. Error-returning kinds are errno names; the others corrupt.
